@@ -170,6 +170,48 @@ def leg_csv_join(ns, res, spec):
     rng = random.Random(spec['seed'] * 94418953 + spec['i'])
     d = tempfile.mkdtemp(prefix='rv-c04-')
     try:
+        # record numbers of the JOIN FILE as key components and as values, with and without a header line (and comment lines) in that file:
+        # bNR is 1 on the first DATA record of the join table, whatever lines precede it
+        for hdr_mode in (False, True):
+            for prefix in (None, '#'):
+                for jt in ('JOIN', 'LEFT JOIN', 'STRICT LEFT JOIN'):
+                    nA, nB = rng.randrange(2, 6), rng.randrange(2, 6)
+                    A = [['k%d' % (r % 3), 'a%d' % r] for r in range(nA)]
+                    B = [['k%d' % ((r + 1) % 3), 'b%d' % r] for r in range(nB)]
+                    ta = ('key,aval\n' if hdr_mode else '') + ''.join((('#c\n' if prefix and r == 1 else '') + ','.join(x) + '\n') for r, x in enumerate(A))
+                    tb = (('#lead\n' if prefix else '') + 'key,bval\n' if hdr_mode else ('#lead\n' if prefix else '')) + ''.join((('#m\n' if prefix and r == 1 else '') + ','.join(x) + '\n') for r, x in enumerate(B))
+                    with open(os.path.join(d, 'nr_in.csv'), 'w') as f:
+                        f.write(ta)
+                    with open(os.path.join(d, 'nr_jn.csv'), 'w') as f:
+                        f.write(tb)
+                    for qt, pair, proj in (('select a2, b2, bNR %s nr_jn.csv on NR == bNR' % jt, lambda i, k: i == k, lambda a, b, i, k: [a[1], b[1], k]),
+                                           ('select NR, bNR, bNR, b1 %s nr_jn.csv on a1 == b1' % jt, lambda i, k: A[i - 1][0] == B[k - 1][0], lambda a, b, i, k: [i, k, k, b[0]]),
+                                           ('select a2, b2 %s nr_jn.csv on NR == bNR and b1 == a1' % jt, lambda i, k: i == k and A[i - 1][0] == B[k - 1][0], lambda a, b, i, k: [a[1], b[1]])):
+                        exp, fail = [], False
+                        for i, a in enumerate(A, 1):
+                            ms = [k for k in range(1, nB + 1) if pair(i, k)]
+                            if jt == 'STRICT LEFT JOIN' and len(ms) != 1:
+                                fail = True
+                                break
+                            if not ms and jt != 'JOIN':
+                                exp.append(['' if v is None else str(v) for v in proj(a, [None, None], i, None)])
+                            for k in ms:
+                                exp.append([str(v) for v in proj(a, B[k - 1], i, k)])
+                        err = rows = None
+                        try:
+                            ns.rbql.query_csv(qt, os.path.join(d, 'nr_in.csv'), ',', 'quoted', os.path.join(d, 'nr_out.csv'), ',', 'quoted', 'utf-8', [], hdr_mode, prefix)
+                            with open(os.path.join(d, 'nr_out.csv'), 'rb') as f:
+                                rows = refcsv.read_text(f.read().decode('utf-8'), ',', 'quoted', None, hdr_mode).records
+                        except Exception as e:
+                            err = '%s: %s' % (util.error_class(e), str(e)[:120])
+                        res.evaluations += 1
+                        res.count('csv_join_record_number_runs')
+                        cs = {'leg': 'csv-join-nr', 'query_text': qt, 'input_text': ta, 'join_text': tb, 'header': hdr_mode, 'comment_prefix': prefix}
+                        if fail:
+                            if err is None:
+                                res.violation('py:csv-join-record-numbers:strict-does-not-fail', '[py/query_csv] %s over %r / %r (header %s) returned %r although some record has no single match' % (qt, ta, tb, hdr_mode, rows), cs)
+                        elif err is not None or rows != exp:
+                            res.violation('py:csv-join-record-numbers', '[py/query_csv] %s over input file %r and join file %r (header %s, comment prefix %r) -> %s ; expected %r' % (qt, ta, tb, hdr_mode, prefix, err or rows, exp), cs)
         done = 0
         for n in range(spec['n'] * 6):
             if done >= spec['n']:
@@ -280,7 +322,7 @@ def summarize(tier, seed, m):
     shapes = sorted(k[6:] for k in m['counters'] if k.startswith('shape:'))
     return {
         'rule': 'pairs of small tables with duplicate keys on both sides (m x n blocks), ragged / empty A and B, None cells; JOIN / INNER JOIN / LEFT JOIN / LEFT OUTER JOIN / STRICT LEFT JOIN; 1-3 key pairs with == or =, either side order, NR / aNR / a.NR against bNR / b.NR / fields in every spelling; downstream rotating over plain select, WHERE (incl. b-field is None), ORDER BY, DISTINCT, DISTINCT COUNT, UNNEST, aggregates (COUNT, ARRAY_AGG of b-fields and bNR, grouped by an a-field), UPDATE with and without WHERE, TOP, b.* expansion. a typed front-ends leg: dataframes (int64 key next to float64 / object / int64 columns - all-numeric join frames included) through DataframeIterator + SingleDataframeRegistry and sqlite tables (INTEGER / REAL / TEXT) through SqliteRecordIterator + SqliteDbRegistry, integer keys up to 2**62 (beyond float precision), JOIN / LEFT JOIN / STRICT LEFT JOIN, three select shapes, every emitted field compared by value and type with a nested-loop pairing; a CSV leg: the generated joins (string cells) with both tables in files - header lines, ragged rows, and in every other case comment lines in both files that are not records - through query_csv, rows compared with the reference after the stringification a CSV sink applies; distinct_nontrivial = distinct (query, A, B) with a non-empty reference result or a predicted error.',
-        'required': ['csv_join_runs:comments', 'csv_join_runs:plain', 'typed_join_runs:pandas', 'typed_join_runs:sqlite', 'typed_join_runs:list', 'py_cases', 'join_table_read_pattern_checks', 'fan_out_cases', 'predicted_error_a_side', 'predicted_error_b_side', 'js_cases', 'join:STRICT LEFT JOIN', 'join:LEFT OUTER JOIN', 'keypairs:3'],
+        'required': ['csv_join_record_number_runs', 'csv_join_runs:comments', 'csv_join_runs:plain', 'typed_join_runs:pandas', 'typed_join_runs:sqlite', 'typed_join_runs:list', 'py_cases', 'join_table_read_pattern_checks', 'fan_out_cases', 'predicted_error_a_side', 'predicted_error_b_side', 'js_cases', 'join:STRICT LEFT JOIN', 'join:LEFT OUTER JOIN', 'keypairs:3'],
         'extra': {'shapes_seen': shapes},
         'assumptions': ['rv/model/refsem.py expand() is the join semantics of the statement'],
     }
